@@ -49,23 +49,31 @@ inductive Control where
   | tooLong          -- more than 33 + 32·128 bytes
   deriving DecidableEq, Repr
 def Control.all : List Control := [.valid, .parityFlipped, .otherKey, .pNotX, .pGeP, .badLength, .tooLong]
+/-- the output key as the caller passes it.  `check_output_pubkey` compares it AS AN INTEGER with the computed x
+(`Q[0] == int.from_bytes(q, "big")`), so the class of "another length" is not homogeneous: a zero-padded spelling of the
+same integer is accepted (tests/script/taproot_test.py pins that), any other spelling of another length is not. -/
 inductive QKey where
-  | len32 | otherLength
+  | len32
+  | zeroPadded      -- 00…00 ‖ q (33, 34 … bytes), or q without its leading zero bytes: the same integer
+  | otherValue      -- another length and another integer (02 ‖ q, a truncated q)
   deriving DecidableEq, Repr
-def QKey.all : List QKey := [.len32, .otherLength]
+def QKey.all : List QKey := [.len32, .zeroPadded, .otherValue]
+/-- the integer the octets spell is the output key's x -/
+def QKey.sameInteger : QKey → Bool
+  | .len32 | .zeroPadded => true
+  | .otherValue => false
 namespace TapCheck
 def lengthCheck : Control → Option Outcome
   | .badLength | .tooLong => some .errValue
   | _ => none
-/-- Python arm: length checks, lift `p` (`_y_even_var` raises), add, compare x and parity (a q of another length never
-equals the 32-byte x) -/
+/-- Python arm: length checks, lift `p` (`_y_even_var` raises), add, compare x (as integers) and parity -/
 def py (q : QKey) (c : Control) : Outcome :=
   match lengthCheck c with
   | some e => e
   | none =>
     match c with
     | .pNotX | .pGeP => .errValue
-    | .valid => (match q with | .len32 => .true_ | .otherLength => .false_)
+    | .valid => if q.sameInteger then .true_ else .false_
     | _ => .false_
 /-- bindings arm: the same length checks; `len(q) == 32` is part of the guard, `tweak_add_check`'s ValueError (p) is
 translated; any other q goes to the Python arm -/
@@ -74,7 +82,7 @@ def bind (q : QKey) (c : Control) : Outcome :=
   | some e => e
   | none =>
     match q with
-    | .otherLength => py q c
+    | .zeroPadded | .otherValue => py q c
     | .len32 =>
       match c with
       | .pNotX | .pGeP => .errValue
